@@ -974,6 +974,13 @@ fn do_command_substitution_for_dollar(sh: &mut Shell, tokens: &mut types::Tokens
                 }
             };
 
+            // what the command wrote to stderr is not part of the result
+            if !cmd_result.stderr.is_empty() {
+                eprint!("{}", cmd_result.stderr);
+                if !cmd_result.stderr.ends_with('\n') {
+                    eprintln!();
+                }
+            }
             // only the trailing newlines go; blanks belong to the output
             let output_txt = cmd_result.stdout.trim_end_matches('\n');
             if has_operator_char(output_txt) {
@@ -1031,6 +1038,12 @@ fn do_command_substitution_for_dot(sh: &mut Shell, tokens: &mut types::Tokens) {
                 }
             };
 
+            if !cr.stderr.is_empty() {
+                eprint!("{}", cr.stderr);
+                if !cr.stderr.ends_with('\n') {
+                    eprintln!();
+                }
+            }
             new_token = cr.stdout.trim_end_matches('\n').to_string();
         } else {
             idx += 1;
